@@ -1,3 +1,3 @@
 (* Extract/D02v.v -- C02, views unit: text interpreter (see Model/ViewsDispatch.v). *)
 From PV Require Import Model.ViewsDispatch.
-Definition dispatch_line (l : string) : string := dispatch line02 l.
+Definition dispatch_line (l : string) : string := dispatch true line02 l.
